@@ -43,6 +43,10 @@ THEOREMS = [
     'CpProofs.C20.C20_thread_notifications_quiescent',
     'CpProofs.C20.C20_thread_notifications_partial',
     'CpProofs.C20.C20_thread_notifications_asIs_false',
+    'CpProofs.C20.C20_dead_worker_inert',
+    'CpProofs.C20.C20_start_keeps_dead_worker',
+    'CpProofs.C20.C20_graceful_replaces_dead_worker',
+    'CpProofs.C20.C20_no_raise_no_dead_worker',
     'CpProofs.C20.C20_admitted_trace_is_model_run',
     'CpProofs.C20.C20_admitted_M_safe',
     'CpProofs.C20.C20_admitted_B_safe',
@@ -278,6 +282,7 @@ class RunM(RunBase):
         self.workers = []          # task objects in the order they were stored into Monitor.thread
         self.raises = set(case.get('boom') or ())      # numbers (1-based, global) of the invocations that raise
         self.ncb = 0
+        self.boomed = {}           # worker tid -> time of the invocation that raised
         if case.get('ar'):
             # the Autoreloader, as far as it is a Monitor: it watches no file (match nothing), its
             # own run() is called behind the journalling probe
@@ -311,6 +316,7 @@ class RunM(RunBase):
         self.ncb += 1
         self.journal.append((self.tick(), me.tid if me else '?'))
         if self.ncb in self.raises:
+            self.boomed[me.tid if me else '?'] = self.seq
             raise _Boom('callback failure #%d' % self.ncb)
 
     def _ctl(self):
@@ -328,8 +334,11 @@ class RunM(RunBase):
     def model_tid(self, tid):
         if tid == 'c':
             return 'c'
-        i = self._widx(self.s.recs[tid].thread)
-        return 'w%d' % (i + 1) if i is not None else 'w99'
+        rec = self.s.recs[tid]
+        i = self._widx(rec.thread)
+        # the turn in which the callback raises is a turn of its own kind in the model (Tid.wx)
+        boom = rec.pending == ('cb',) and (self.ncb + 1) in self.raises
+        return '%s%d' % ('x' if boom else 'w', i + 1) if i is not None else 'w99'
 
     def obs(self):
         cur = self.mon.__dict__.get('thread')
@@ -342,8 +351,9 @@ class RunM(RunBase):
         for w in self.workers:
             rec = self.s.find_thread(w)
             n = sum(1 for (_, who) in self.journal if rec is not None and who == rec.tid)
-            ws.append('%d%d%d:%d' % (1 if rec is not None else 0, 1 if w.__dict__.get('running') else 0,
-                                     1 if (rec is not None and rec.done) else 0, n))
+            ws.append('%d%d%d%d:%d' % (1 if rec is not None else 0, 1 if w.__dict__.get('running') else 0,
+                                       1 if (rec is not None and rec.done) else 0,
+                                       1 if (rec is not None and rec.exc is not None) else 0, n))
         crec = self.s.recs['c']
         return 'T=%s;R=%d;X=%d;W=%s' % (t, len(self.rets), 1 if crec.exc is not None else 0, '/'.join(ws))
 
@@ -373,16 +383,30 @@ def oracle_M(case, run):
     # at most one worker per monitor is active; graceful/start leave exactly one, stop leaves none
     tdone = run.rets[-1][3] if run.rets else 0
     active = sorted(w for w in run.wstart
-                    if sum(1 for (t, who) in run.journal if who == w and t > tdone) >= 2)
+                    if sum(1 for (t, who) in run.journal if who == w and t > tdone) >= 2
+                    and not run.s.recs[w].done)      # (a worker whose thread has ended is not active)
     last = run.rets[-1][1] if run.rets else None
     want = 1 if (last in ('start', 'graceful') and case['freq']) else 0
+    # a callback that raises kills its worker (run() re-raises): the monitor's current worker is then dead,
+    # start() does not replace it (less demanding reading), graceful() does
+    cur = run.s.find_thread(run.mon.__dict__.get('thread')) if run.mon.__dict__.get('thread') is not None else None
+    if cur is not None and cur.tid in run.boomed:
+        want = 0
     if len(active) > 1:
         bad.append(('%d workers keep invoking the callback after the last call (%s) returned: %s'
                     % (len(active), last, active), 'M:two_active_workers'))
-    elif len(active) != want and not case.get('boom'):
-        # (a callback that raises kills its worker: then "exactly one" cannot be demanded)
+    elif len(active) != want:
         bad.append(('%d active worker(s) after the last call (%s) returned, expected %d'
                     % (len(active), last, want), 'M:wrong_worker_count_after_%s' % last))
+    for w, t0 in run.boomed.items():
+        n = sum(1 for (t, who) in run.journal if who == w and t > t0)
+        if n:
+            bad.append(('worker %s invoked the callback %d more times after an invocation had raised' % (w, n),
+                        'M:callbacks_after_failure'))
+    for tid, r in run.s.recs.items():
+        if r.kind == 'worker' and r.exc is not None and not isinstance(r.exc, _Boom):
+            bad.append(('worker %s died with %r although its callback did not raise' % (tid, r.exc),
+                        'M:worker_died:%s' % type(r.exc).__name__))
     return bad
 
 
@@ -808,7 +832,7 @@ def comparable(case):
     return True
 
 
-MODEL_HAS = {}
+MODEL_HAS = {'boom': True}
 
 
 def execute(case):
@@ -1024,6 +1048,8 @@ def gen_random(ctx, kind, n):
                     'calls': calls, 'sched': pre}
             if rng.random() < 0.15:
                 case['ar'] = 1
+            elif rng.random() < 0.2:
+                case['boom'] = sorted(set(rng.randint(1, 4) for _ in range(rng.randint(1, 2))))
         elif kind == 'B':
             case = {'k': 'B', 'calls': rng.choice(B_SEQS),
                     'sched': rand_sched(rng, ['m', 'x'], rng.randint(3, 40))}
@@ -1100,6 +1126,12 @@ def all_cases(ctx):
     cases += list(gen_M_systematic(['start', 'stop'], 0, 1, (0, 3), (0,)))
     for daemon in (1, 0):
         cases += list(gen_M_systematic(MAIN_SEQ, 1, daemon, range(0, 34, 2 if quick else 1), (0, 2, 5), ar=1))
+    # a callback that raises (run() logs and re-raises: the worker dies with `running` and Monitor.thread set)
+    for calls in (MAIN_SEQ, ['start', 'start'], ['start', 'graceful'], ['start', 'stop', 'start'],
+                  ['start', 'graceful', 'graceful'], ['start', 'graceful', 'stop']):
+        for boom in ([1], [2], [1, 2]):
+            cases += list(gen_M_systematic(calls, 1, 1 if boom != [2] else 0, range(6, 26, 3 if quick else 1),
+                                           (4, 5, 9) if quick else range(0, 12), boom=boom))
     for calls in (MAIN_SEQ, ['start', 'graceful', 'stop'], ['start', 'stop', 'start']):
         cases += list(gen_M_two(calls, 1, ctx.rng.choice([0, 1]), ctx.rng, 40 if quick else 1500))
     # B
